@@ -187,6 +187,7 @@ export class Renderer {
   renderNode(n, env, file, out) {
     switch (n.t) {
       case 'comment': return
+      case 'hoist': return // file-level element written between nodes: renders nothing here
       case 'text': {
         if (isStatic(n.v)) {
           const s = staticText(n.v)
